@@ -119,3 +119,8 @@ Print Assumptions C07_quarantined_ids_never_reused.
 Print Assumptions C07_quarantine_only_grows.
 Print Assumptions C07_quarantined_id_stays_unused.
 Print Assumptions C07_ids_after_crash_damage.
+
+(* appends to a file never overlap, also after a caller was dropped: their ranges are handed out in the order in which the bytes reach the file (structural fact re-extracted on every run; finding F37) *)
+Theorem C07_source_append_waits_for_appends_in_flight : Pearl.Generated.Facts.APPEND_WAITS_FOR_APPENDS_IN_FLIGHT = true.
+Proof. reflexivity. Qed.
+Print Assumptions C07_source_append_waits_for_appends_in_flight.
